@@ -58,6 +58,11 @@ def _other_form(secret, ctx):
         return None
 
 
+def _within_max(x):
+    """the other form is an admissible password too (the library-wide maximum is 4096 units of whatever is passed in)"""
+    return x is not None and len(x) <= 4096
+
+
 def _padded_only(f, p, q, ns, ctx):
     """True when p and q have equal documented keys only because one ends where the other has bytes that
     mask to zero (0x80) -- docs do not say whether an absent byte equals a 0x80 byte"""
@@ -109,6 +114,8 @@ def o_roundtrip(rec: Recorder, case, soft=False):
         rec.fail(f"C01/verify-own/{name}", f"{name}: verify(p, hash(p)) is not True", "roundtrip", case, hs, True, soft=soft)
         return
     other = _other_form(secret, ctx)
+    if not _within_max(other):
+        other = None
     if other is not None and name != "lmhash":
         if h.verify(other, hs, **ctx) is not True:
             rec.fail(f"C01/text-bytes/{name}", f"{name}: password as text and as encoded bytes verify differently", "roundtrip", case, repr(other), True, soft=soft)
@@ -212,7 +219,7 @@ def o_libpass(rec: Recorder, case, soft=False):
         rec.fail(f"C01/libpass/verify-own/{kind}", f"libpass {kind}: verify(hash(p), p) is not True", "libpass_roundtrip", case, hs, True, soft=soft)
         return
     other = _other_form(secret, {})
-    if other is not None and h.verify(hash=hs.encode(), secret=other) is not True:
+    if _within_max(other) and h.verify(hash=hs.encode(), secret=other) is not True:
         rec.fail(f"C01/libpass/text-bytes/{kind}", f"libpass {kind}: text/bytes forms verify differently", "libpass_roundtrip", case, repr(other), True, soft=soft)
     maxlen = LIBPASS[kind][2]
     sb = secret.encode() if isinstance(secret, str) else secret
